@@ -42,7 +42,7 @@ func init() {
 		MinEvals:    floor(20000, 600000),
 		MinDistinct: floor(2000, 60000),
 		RequiredCells: func(string) []string {
-			cells := []string{"cid/ToSealed", "cid/ToSealedWriter", "cid/FromSealed", "cid/FromSealedReader", "cid/container", "cid/ToSealedWriter-piecewise", "cid/container-foreign-section-cid", "cid/mixed-container", "sig/s-flip", "sig/der-padded", "sig/zero-prepended", "sig/zero-appended", "sig/leading-zeros-stripped", "sig/leading-zero-signature/rsa2048", "variant/extra-element", "variant/envelope-rearranged"}
+			cells := []string{"cid/ToSealed", "cid/ToSealedWriter", "cid/FromSealed", "cid/FromSealedReader", "cid/container", "cid/ToSealedWriter-piecewise", "cid/container-foreign-section-cid", "cid/mixed-container", "every-size", "sig/s-flip", "sig/der-padded", "sig/zero-prepended", "sig/zero-appended", "sig/leading-zeros-stripped", "sig/leading-zero-signature/rsa2048", "variant/extra-element", "variant/envelope-rearranged"}
 			for _, k := range []string{"widen-1", "widen-2", "widen-4", "widen-8", "indefinite", "indefinite-split", "map-reverse", "map-rotate", "float-narrow", "null-undefined", "all-knobs"} {
 				cells = append(cells, "variant/"+k)
 			}
@@ -280,6 +280,7 @@ func runC08(w *mon.W) {
 	r := w.Rng
 	c08LeadingZeroSignatures(w)
 	c08MixedContainers(w)
+	c08EverySize(w)
 	total := w.Share(w.Pick(40, 600))
 	for it := 0; it < total; it++ {
 		typ := []string{"dlg", "inv"}[it%2]
@@ -661,6 +662,43 @@ func c08MixedContainers(w *mon.W) {
 					}
 				}
 			}
+		}
+	}
+}
+
+// c08EverySize: a token of EVERY sealed size in a range (the padding lives in a metadata string):
+// the CID reported by the buffered and by the streaming unseal - typed and generic - is the
+// content address of the bytes, at every length. (Framing conventions, length prefixes and
+// buffer sizes make particular lengths special; which ones is not knowable from outside.)
+func c08EverySize(w *mon.W) {
+	lo, hi := 300, w.Pick(12400, 70000)
+	for size := lo; size <= hi; size++ {
+		if !w.Mine(size) {
+			continue
+		}
+		typ := []string{"dlg", "inv"}[size%2]
+		sealed, ok := exactSizeToken(typ, size, false)
+		if !ok {
+			w.Count("every-size/not-built", 1)
+			continue
+		}
+		want := ref.CID(sealed)
+		w.Cover("every-size")
+		for _, d := range c08Decoders(typ) {
+			_, c, err := d.f(sealed)
+			w.Eval(1)
+			if err != nil {
+				w.Violate("every-size/unseal-fails/"+d.name, fmt.Sprintf("%s fails on a sealed %s of exactly %d bytes that the library itself produced: %v", d.name, typ, size, err),
+					map[string]any{"size": size, "type": typ, "decoder": d.name, "error": err.Error(), "sealed_head_hex": mon.Hex(capBytes(sealed, 64))})
+				continue
+			}
+			if !c.Equals(want) {
+				w.Violate("every-size/cid-differs/"+d.name, fmt.Sprintf("%s reports CID %s for a sealed %s of exactly %d bytes; the bytes hash to %s", d.name, c, typ, size, want),
+					map[string]any{"size": size, "type": typ, "decoder": d.name})
+			}
+		}
+		if size%64 == 0 {
+			w.Distinct("every-size", size)
 		}
 	}
 }
